@@ -38,7 +38,7 @@ def gen_cases(tier, seed):
                     for fs in (True, False):
                         if not fs and rng.random() < 0.5:
                             continue
-                        yield {"w": "nvecs", "fam": fam, "shape": shape, "n": n, "r": r, "flipsign": fs, "dseed": dseed,
+                        yield {"w": "nvecs", "fam": fam, "shape": shape, "n": n, "r": r, "flipsign": fs, "dseed": dseed, "scale": [1.0, 1.0, 1e-8, 1e8, 1e-100][dseed % 5],
                                "cseed": int(seed) * 86028121 + next(cs)}
 
 
@@ -96,6 +96,14 @@ def _data(case):
         else:
             A = (A * np.array([1.0e3 if i == 0 else 1.0 for i in range(shape[0])]).reshape([-1] + [1] * (len(shape) - 1))).astype(np.float32)
         return A.astype(np.float64), {"tensor": ttb.tensor(A.copy())}
+    sc_ = float(case.get("scale", 1.0))
+    if sc_ != 1.0:
+        # overall magnitude of the data: the vectors do not depend on it (Gram entries of 1e-16 / 1e16 / 1e-200 relative to unit data; 1e-150, where the Gram matrix itself sinks into the denormal range, is not asked for)
+        A = A * sc_
+        K = ttb.ktensor([f.copy() for f in fm], w.copy() * sc_)
+        if "ktensor" in H:
+            H["ktensor"] = K
+            H["ttensor"] = ttb.ttensor(ttb.tensor(denote(H["ttensor"].core) * sc_), [f.copy() for f in fm])
     H["tensor"] = ttb.tensor(A.copy())
     # a sparse holder of the same array: zero a few entries in both
     mask = rng.random(shape) < (0.0 if case["fam"] == "exact" else 0.3)
@@ -120,7 +128,7 @@ def run_case(case, ctx):
     gaps = lead[:-1] - lead[1:] if len(lead) > 1 else np.array([top])
     separated = not (top <= 0 or np.any(lead[:r] < 1e-8 * top) or np.any(gaps < 0.02 * top))
     path = "iterative" if r < In - 1 else "dense"
-    ctx.feat(fam=case["fam"], path=path, flipsign=fs, r_eq_size=(r == In), separated=separated)
+    ctx.feat(fam=case["fam"], path=path, flipsign=fs, r_eq_size=(r == In), separated=separated, scale=str(case.get("scale", 1.0)))
     ref_sub = evec[:, :r]
     results = {}
     for name, X in H.items():
